@@ -974,12 +974,13 @@ def run(chk):
             inp = "".join("case %d\n%s\nend\n" % (k, sc.text()) for k, sc in enumerate(scens))
             rca, outa, erra = pv.run_harness(ha, inp, timeout=900)
             ra = parse_records(outa, True)
-            ka = next((k for k in range(len(scens)) if not (ra.get(str(k), {}).get("ended") or ra.get(str(k), {}).get("died"))), None)
+            # (the harness analyses every case in a forked child: under ASan the child that makes the access dies with a report)
+            ka = next((k for k in range(len(scens)) if ra.get(str(k), {}).get("died") or not ra.get(str(k), {}).get("ended")), None)
             dig = pv.sanitizer_digest(erra)
-            if rca != 0 and ka is not None and dig:
+            if ka is not None and dig:
                 chk.violation("analysis-corrupts-memory: " + scens[ka].canon(),
                               "the symmetry analysis / block construction of this lattice makes an invalid memory access (AddressSanitizer build of the "
-                              "same harness and batch; the plain build died %d cases later): %s" % ((first or 0) - ka, dig[-300:]),
+                              "same harness and batch; the plain build died %d cases later): %s" % ((first or 0) - ka, dig[:400]),
                               {"harness": "h_c07", "variant": "asan", "scenario": scens[ka].text()})
                 return
         except pv.BuildError as ex:
